@@ -11,13 +11,17 @@
   `var.data` is after `apply_projection` (an array-like with `.flat`, or a wrapped `BaseType`
   without it).
 
-  Scope of the dataset model: top-level variables that are arrays, structures of arrays, grids,
-  and flat sequences of scalars (depth ≤ 2), integer-valued data.  Behaviour inside the guarded
-  region that the model does not resolve (out-of-range hyperslabs through `Arrayterator`,
-  comparisons of unlike types, …) is the explicit error class `Exc.unspecified`; it is inside
-  the `try`, so it never decides containment.
+  Scope of the dataset model: top-level variables that are arrays, structures whose members are
+  arrays or structures of arrays (one level of Structure-in-Structure), grids, and flat sequences
+  of scalars; values are integers or ASCII strings (`String` scalars, arrays, sequence columns).
+  Behaviour inside the guarded region that the model does not resolve (comparisons of unlike
+  types, paths through base variables, record ranges that are not `0 ≤ a ≤ b`, …) is the explicit
+  error class `Exc.unspecified`; it is inside the `try`, so it never decides containment.
+  Hyperslabs on arrays and grids are fully resolved: `check_hyperslab` rejects what lies outside
+  the array with `ConstraintExpressionError`, everything else is numpy's selection (`sel`).
 -/
 import PydapModel.Slice
+import PydapModel.XdrSpec
 namespace Pydap.Handler
 open Pydap
 
@@ -136,20 +140,39 @@ inductive DataKind where
   | arr | wrapped
 deriving DecidableEq, Repr, Inhabited
 
+/-- a value: an integer (all numeric types; the data is integer-valued) or an ASCII string -/
+inductive Val where
+  | int (i : Int)
+  | str (s : Str)
+deriving DecidableEq, Repr, Inhabited
+
+/-- numerals denote integer values -/
+instance (n : Nat) : OfNat Val n := ⟨.int (Int.ofNat n)⟩
+
 structure Base where
   name : Str
   ty : Str            -- DAP2 type name as printed
   shape : List Nat
   dims : List Str
-  data : List Int     -- row-major
+  data : List Val     -- row-major
   kind : DataKind := .arr
 deriving DecidableEq, Repr, Inhabited
 
-inductive Var where
+/-- a member of a top-level Structure: an array, or a Structure of arrays -/
+inductive Member where
   | base (b : Base)
   | struct (name : Str) (members : List Base)
+deriving DecidableEq, Repr, Inhabited
+
+def Member.name : Member → Str
+  | .base b => b.name
+  | .struct n _ => n
+
+inductive Var where
+  | base (b : Base)
+  | struct (name : Str) (members : List Member)
   | grid (name : Str) (array : Base) (maps : List Base)
-  | seq (name : Str) (cols : List (Str × Str)) (rows : List (List Int))
+  | seq (name : Str) (cols : List (Str × Str)) (rows : List (List Val))
 deriving DecidableEq, Repr, Inhabited
 
 def Var.name : Var → Str
@@ -171,6 +194,10 @@ def Base.WF (b : Base) : Prop := b.data.length = prod b.shape ∧ b.kind = .arr
 
 instance (b : Base) : Decidable b.WF := by unfold Base.WF; exact inferInstance
 
+def Member.WF : Member → Prop
+  | .base b => b.WF
+  | .struct _ ms => ∀ m ∈ ms, m.WF
+
 def Var.WF : Var → Prop
   | .base b => b.WF
   | .struct _ ms => ∀ m ∈ ms, m.WF
@@ -181,26 +208,30 @@ def Dataset.WF (ds : Dataset) : Prop := ∀ v ∈ ds.vars, v.WF
 
 /-! ### hyperslabs on row-major data -/
 
-/-- the hyperslabs the property calls valid on an axis of length `N`: `[a:k:b]` with
-    `0 ≤ a ≤ b < N`, `k ≥ 1` (as parsed: start `a`, stop `b+1`, step `k`) -/
+/-- `check_hyperslab` on one axis of length `N`: the slice (as parsed: start `a`, stop `b+1`,
+    step `k`) starts inside the axis, is not empty or inverted and has a stride ≥ 1.  A stop
+    beyond the extent is legal (it is clipped). -/
 def validSl (N : Nat) (s : PSlice) : Bool :=
-  match s.start, s.stop, s.step with
-  | some a, some b, some k => decide (0 ≤ a ∧ a < b ∧ b ≤ N ∧ 1 ≤ k)
-  | _, _, _ => false
+  decide (0 ≤ s.start.getD 0 ∧ s.start.getD 0 < (N : Int) ∧ s.start.getD 0 < s.stop.getD N ∧ 1 ≤ s.step.getD 1)
 
 /-- take the sub-blocks `idx` of a row-major block list, recursively per axis -/
-def selND : List Nat → List (List Nat) → List Int → List Int
+def selND : List Nat → List (List Nat) → List Val → List Val
   | _ :: sh, idx :: rest, d =>
     idx.flatMap fun i => selND sh rest ((d.drop (i * prod sh)).take (prod sh))
   | _, _, d => d
 
-/-- `target.data = target[slice_].data` for a slice tuple that is valid and complete for the
-    shape; anything else goes through `Arrayterator` in ways the model does not resolve -/
+/-- the slice tuple completed with `slice(None)` for the axes it does not mention (`Arrayterator.__getitem__`) -/
+def padSl (rank : Nat) (sl : List PSlice) : List PSlice :=
+  sl ++ List.replicate (rank - sl.length) PSlice.all
+
+/-- `check_hyperslab(slice_, target.shape)` then `target.data = target[slice_].data`: more
+    indices than dimensions or a slice outside its axis raise `ConstraintExpressionError`;
+    otherwise numpy's selection per axis (missing axes whole, stops clipped) -/
 def sliceBase (b : Base) (sl : List PSlice) : Except Exc Base :=
-  if sl.length = b.shape.length ∧ (List.zipWith validSl b.shape sl).all id then
-    let idx := List.zipWith sel b.shape sl
+  if sl.length ≤ b.shape.length ∧ (List.zipWith validSl b.shape sl).all id then
+    let idx := List.zipWith sel b.shape (padSl b.shape.length sl)
     .ok { b with shape := idx.map List.length, data := selND b.shape idx b.data, kind := .arr }
-  else .error .unspecified
+  else .error .ceError
 
 /-! ### `apply_selection` -/
 
@@ -221,14 +252,29 @@ def splitRel : Str → Option (Str × RelOp × Str)
     | '=', r => some ([], .eq, r)
     | _, _ => (splitRel cs).map fun (a, op, b) => (c :: a, op, b)
 
-def evalRel : RelOp → Int → Int → Option Bool
-  | .le, a, b => some (decide (a ≤ b))
-  | .ge, a, b => some (decide (a ≥ b))
-  | .ne, a, b => some (decide (a ≠ b))
-  | .gt, a, b => some (decide (a > b))
-  | .lt, a, b => some (decide (a < b))
-  | .eq, a, b => some (decide (a = b))
-  | .match_, _, _ => none       -- not in `parse_selection`'s operator table: KeyError
+/-- three-way comparison of strings by code point (numpy's / Python's order) -/
+def strCmp : Str → Str → Ordering
+  | [], [] => .eq
+  | [], _ :: _ => .lt
+  | _ :: _, [] => .gt
+  | a :: as, b :: bs => if a.toNat < b.toNat then .lt else if b.toNat < a.toNat then .gt else strCmp as bs
+
+def relOfOrd : RelOp → Ordering → Option Bool
+  | .le, o => some (o != .gt)
+  | .ge, o => some (o != .lt)
+  | .ne, o => some (o != .eq)
+  | .gt, o => some (o == .gt)
+  | .lt, o => some (o == .lt)
+  | .eq, o => some (o == .eq)
+  | .match_, _ => none          -- not in `parse_selection`'s operator table: KeyError
+
+def intCmp (a b : Int) : Ordering := if a < b then .lt else if b < a then .gt else .eq
+
+/-- comparison of two values of like type; `none` in the outer option = unlike types (not resolved) -/
+def evalRel (op : RelOp) : Val → Val → Option (Option Bool)
+  | .int a, .int b => some (relOfOrd op (intCmp a b))
+  | .str a, .str b => some (relOfOrd op (strCmp a b))
+  | _, _ => none
 
 /-- plain decimal integer literal (the part of `ast.literal_eval` the model resolves); Python
     rejects a leading zero on a non-zero decimal literal (`018` is a SyntaxError, `00` is 0) -/
@@ -249,25 +295,37 @@ def relevant (seqName : Str) (cond : Str) : Bool :=
   cond.take pfx.length = pfx &&
     (((cond.drop pfx.length).takeWhile (· ≠ '.')).drop 1).any isRelChar
 
-/-- operand of a relevant condition, resolved against the sequence: a column or an integer -/
-inductive Operand where | col (i : Nat) | lit (v : Int)
+/-- a double-quoted string literal without quote or backslash inside (the part of
+    `ast.literal_eval` on strings the model resolves) -/
+def strLit (s : Str) : Option Str :=
+  match s with
+  | '"' :: rest =>
+    match rest.reverse with
+    | '"' :: body => if body.all (fun c => c ≠ '"' ∧ c ≠ '\\' ∧ c ≠ '\n') then some body.reverse else none
+    | _ => none
+  | _ => none
+
+/-- operand of a relevant condition, resolved against the sequence: a column or a literal -/
+inductive Operand where | col (i : Nat) | lit (v : Val)
 
 def operand (seqName : Str) (cols : List (Str × Str)) (s : Str) : Option Operand :=
   let pfx := seqName ++ ['.']
   if s.take pfx.length = pfx then (colIndex cols (s.drop pfx.length)).map .col
-  else (intLit s).map .lit
+  else match intLit s with
+    | some i => some (.lit (.int i))
+    | none => (strLit s).map fun t => .lit (.str t)
 
-def operandVal (row : List Int) : Operand → Option Int
+def operandVal (row : List Val) : Operand → Option Val
   | .col i => row[i]?
   | .lit v => some v
 
 /-- one relevant condition applied to the rows -/
-def filterRows (seqName : Str) (cols : List (Str × Str)) (rows : List (List Int)) (cond : Str) :
-    Except Exc (List (List Int)) :=
+def filterRows (seqName : Str) (cols : List (Str × Str)) (rows : List (List Val)) (cond : Str) :
+    Except Exc (List (List Val)) :=
   match splitRel cond with
   | none => .error .valueError
   | some (l, op, r) =>
-    match evalRel op 0 0 with
+    match relOfOrd op .eq with
     | none => .error .keyError
     | some _ =>
       match operand seqName cols l, operand seqName cols r with
@@ -276,9 +334,10 @@ def filterRows (seqName : Str) (cols : List (Str × Str)) (rows : List (List Int
           match operandVal row (.col i), operandVal row b with
           | some x, some y =>
             match evalRel op x y with
-            | some true => .ok (some row)
-            | some false => .ok none
-            | none => .error .keyError
+            | some (some true) => .ok (some row)
+            | some (some false) => .ok none
+            | some none => .error .keyError
+            | none => .error .unspecified
           | _, _ => .error .unspecified
       | _, _ => .error .unspecified
 
@@ -294,19 +353,25 @@ def applySelection (sel : List Str) (ds : Dataset) : Except Exc Dataset := do
 
 /-! ### `fix_shorthand` -/
 
-def memberNames : Var → List Str
+/-- the parent lists of the members below a variable whose name is `token`, in `walk` order
+    (a member, then — for a nested structure — its own members) -/
+def memberMatches (vname token : Str) : Member → List (List Str)
+  | .base b => if b.name = token then [[vname]] else []
+  | .struct n bs =>
+    (if n = token then [[vname]] else []) ++ ((bs.filter (·.name = token)).map fun _ => [vname, n])
+
+def belowMatches (token : Str) : Var → List (List Str)
   | .base _ => []
-  | .struct _ ms => ms.map (·.name)
-  | .grid _ a ms => a.name :: ms.map (·.name)
-  | .seq _ cols _ => cols.map (·.1)
+  | .struct n ms => ms.flatMap (memberMatches n token)
+  | .grid n a ms => ((a :: ms).filter (·.name = token)).map fun _ => [n]
+  | .seq n cols _ => ((cols.map (·.1)).filter (· = token)).map fun _ => [n]
 
 /-- the ids (as parent lists) of everything `walk(dataset)` yields whose name is `token`:
-    the dataset itself, then every variable followed by its members -/
+    the dataset itself, then every variable followed by what is below it -/
 def shorthandMatches (ds : Dataset) (token : Str) : List (List Str) :=
   (if ds.name = token then [[]] else []) ++
   ds.vars.flatMap fun v =>
-    (if v.name = token then [[]] else []) ++
-    ((memberNames v).filter (· = token)).map fun _ => [v.name]
+    (if v.name = token then [[]] else []) ++ belowMatches token v
 
 def fixShorthand1 (ds : Dataset) : ProjItem → Except Exc ProjItem
   | .call s =>
@@ -329,15 +394,28 @@ def setVar (vs : List Var) (v : Var) : List Var := vs.filter (·.name ≠ v.name
 
 def setBase (ms : List Base) (b : Base) : List Base := ms.filter (·.name ≠ b.name) ++ [b]
 
-def findMember (v : Var) (n : Str) : Option Base :=
+def setMember (ms : List Member) (m : Member) : List Member := ms.filter (·.name ≠ m.name) ++ [m]
+
+def findMember (v : Var) (n : Str) : Option Member :=
   match v with
   | .base _ => none
   | .struct _ ms => ms.find? (·.name = n)
-  | .grid _ a ms => (a :: ms).find? (·.name = n)
+  | .grid _ a ms => ((a :: ms).find? (·.name = n)).map .base
   | .seq _ _ _ => none
 
-/-- first loop of `apply_projection` for one projection path -/
-def collect1 (src : Dataset) (out : List Var) : ProjItem → Except Exc (List Var)
+/-- `target[name] = candidate` for the last name of a path inside a structure already in the
+    output: an array is (re-)set — deleted and appended; a structure is only added when its name
+    is not there yet -/
+def addMember (ms : List Member) : Member → List Member
+  | .base b => setMember ms (.base b)
+  | .struct n bs => if (ms.map Member.name).contains n then ms else ms ++ [.struct n bs]
+
+/-- names `DatasetType.__getitem__` does not simply look up: the empty name is the dataset
+    itself, a name with `/` is walked as a DAP4 path -/
+def oddName (n : Str) : Bool := n = [] || n.contains '/'
+
+/-- first loop of `apply_projection` for one projection path (plain names) -/
+def collect1Core (src : Dataset) (out : List Var) : ProjItem → Except Exc (List Var)
   | .call _ => .error .valueError        -- unpacking a character into `(name, slice_)`
   | .path [] => .ok out
   | .path [(n, _)] =>
@@ -361,16 +439,50 @@ def collect1 (src : Dataset) (out : List Var) : ProjItem → Except Exc (List Va
     | some v =>
       match findMember v m with
       | none => .error .keyError
-      | some b =>
+      | some mem =>
         match findVar out n with
-        | none => .ok (out ++ [.struct n [b]])       -- grids degenerate into structures
-        | some (.struct _ ms) => .ok (out.map fun v => if v.name = n then .struct n (setBase ms b) else v)
+        | none => .ok (out ++ [.struct n [mem]])       -- grids degenerate into structures
+        | some (.struct _ ms) => .ok (out.map fun v => if v.name = n then .struct n (addMember ms mem) else v)
         | some (.grid _ a ms) =>
           -- the whole grid was collected before: the member is re-set in place (grid object kept)
-          if a.name = m then .ok out else
-          .ok (out.map fun v => if v.name = n then .grid n a (setBase ms b) else v)
+          match mem with
+          | .base b =>
+            if a.name = m then .ok out else
+            .ok (out.map fun v => if v.name = n then .grid n a (setBase ms b) else v)
+          | .struct _ _ => .error .unspecified
         | some _ => .error .unspecified
+  | .path [(n, _), (m, _), (k, _)] =>
+    -- a member of a structure nested in a structure
+    match findVar src.vars n with
+    | none => .error .keyError
+    | some (.struct _ sms) =>
+      match sms.find? (·.name = m) with
+      | none => .error .keyError
+      | some (.base _) => .error .unspecified
+      | some (.struct _ bs) =>
+        match bs.find? (·.name = k) with
+        | none => .error .keyError
+        | some b =>
+          match findVar out n with
+          | none => .ok (out ++ [.struct n [.struct m [b]]])      -- two shallow copies
+          | some (.struct _ ms) =>
+            match ms.find? (·.name = m) with
+            | none => .ok (out.map fun v => if v.name = n then .struct n (ms ++ [.struct m [b]]) else v)
+            | some (.struct _ obs) =>
+              .ok (out.map fun v => if v.name = n then
+                .struct n (ms.map fun x => if x.name = m then .struct m (setBase obs b) else x) else v)
+            | some (.base _) => .error .unspecified
+          | some _ => .error .unspecified
+    | some _ => .error .unspecified
   | .path _ => .error .unspecified
+
+/-- first loop of `apply_projection` for one projection path; paths of two or more names with an
+    empty name or a `/` in a name are not resolved -/
+def collect1 (src : Dataset) (out : List Var) (p : ProjItem) : Except Exc (List Var) :=
+  match p with
+  | .path (a :: b :: rest) =>
+    if (a :: b :: rest).any (fun x => oddName x.1) then .error .unspecified else collect1Core src out p
+  | _ => collect1Core src out p
 
 /-- "fix sequence data": the rows of the source sequence restricted to the visible columns -/
 def fixSeqData (src : Dataset) : Var → Except Exc Var
@@ -386,12 +498,22 @@ def fixSeqData (src : Dataset) : Var → Except Exc Var
     | _ => .error .keyError
   | v => .ok v
 
-def sliceGrid (a : Base) (ms : List Base) (sl : List PSlice) : Except Exc (Base × List Base) :=
-  if ms.length = sl.length then do
-    let a' ← sliceBase a sl
-    let ms' ← (ms.zip sl).mapM fun (m, s) => sliceBase m [s]
-    pure (a', ms')
-  else .error .unspecified
+/-- `check_hyperslab(slice_, grid.array.shape)` then `GridType.__getitem__`: the array takes the
+    whole tuple, the i-th map the i-th slice (maps beyond the tuple stay whole).  A map that is
+    shorter than the axis it describes (an inconsistent grid) is outside the model. -/
+def sliceGrid (a : Base) (ms : List Base) (sl : List PSlice) : Except Exc (Base × List Base) := do
+  let a' ← sliceBase a sl
+  let ms' ← (ms.zip sl).mapM fun (m, s) =>
+    match sliceBase m [s] with
+    | .ok m' => Except.ok m'
+    | .error _ => .error Exc.unspecified
+  pure (a', ms' ++ ms.drop sl.length)
+
+/-- record ranges the model resolves: `[a:k:b]` with `0 ≤ a ≤ b`, `k ≥ 1` -/
+def seqSlOk (s : PSlice) : Bool :=
+  match s.start, s.stop, s.step with
+  | some a, some b, some k => decide (0 ≤ a ∧ a < b ∧ 1 ≤ k)
+  | _, _, _ => false
 
 /-- second loop of `apply_projection` for one projection path -/
 def slice1 (out : List Var) : ProjItem → Except Exc (List Var)
@@ -407,7 +529,7 @@ def slice1 (out : List Var) : ProjItem → Except Exc (List Var)
     | some (.seq _ cols rows) =>
       match sl with
       | s :: _ =>
-        if validSl (rows.length + (s.stop.getD 0).toNat) s then
+        if seqSlOk s then
           -- `parent[name] = target[slice_[0]]`: re-setting a key moves it to the end
           .ok (setVar out (.seq n cols ((sel rows.length s).filterMap (rows[·]?))))
         else .error .unspecified
@@ -427,9 +549,26 @@ def slice1 (out : List Var) : ProjItem → Except Exc (List Var)
     | some (.struct _ ms) =>
       match ms.find? (·.name = m) with
       | none => .error .keyError
-      | some b => do
+      | some (.struct _ _) => .error .ceError      -- "Invalid projection!"
+      | some (.base b) => do
         let b' ← sliceBase b sl
-        pure (out.map fun v => if v.name = n then .struct n (ms.map fun x => if x.name = m then b' else x) else v)
+        pure (out.map fun v => if v.name = n then .struct n (ms.map fun x => if x.name = m then .base b' else x) else v)
+    | _ => .error .unspecified
+  | .path [(n, sl0), (m, sl1), (k, sl)] =>
+    match findVar out n with
+    | some (.struct _ ms) =>
+      if sl0 ≠ [] then .error .ceError else
+      match ms.find? (·.name = m) with
+      | some (.struct _ bs) =>
+        if sl1 ≠ [] then .error .ceError else
+        if sl = [] then .ok out else
+        match bs.find? (·.name = k) with
+        | none => .error .keyError
+        | some b => do
+          let b' ← sliceBase b sl
+          pure (out.map fun v => if v.name = n then
+            .struct n (ms.map fun x => if x.name = m then .struct m (bs.map fun y => if y.name = k then b' else y) else x) else v)
+      | _ => .error .unspecified
     | _ => .error .unspecified
   | .path _ => .error .unspecified
 
@@ -463,10 +602,16 @@ def ddsBase (level : Nat) (b : Base) : Str :=
       | sh => sh.flatMap fun n => ['['] ++ natText n ++ [']']
   indent level ++ b.ty ++ [' '] ++ b.name ++ shp ++ cs!";\n"
 
+def ddsMember (level : Nat) : Member → Str
+  | .base b => ddsBase level b
+  | .struct n bs =>
+    indent level ++ cs!"Structure {\n" ++ bs.flatMap (ddsBase (level + 1)) ++
+    indent level ++ cs!"} " ++ n ++ cs!";\n"
+
 def ddsVar (level : Nat) : Var → Str
   | .base b => ddsBase level b
   | .struct n ms =>
-    indent level ++ cs!"Structure {\n" ++ ms.flatMap (ddsBase (level + 1)) ++
+    indent level ++ cs!"Structure {\n" ++ ms.flatMap (ddsMember (level + 1)) ++
     indent level ++ cs!"} " ++ n ++ cs!";\n"
   | .grid n a ms =>
     indent level ++ cs!"Grid {\n" ++ indent (level + 1) ++ cs!"Array:\n" ++ ddsBase (level + 2) a ++
@@ -487,9 +632,14 @@ def ndindex : List Nat → List (List Nat)
 
 def idxText (ix : List Nat) : Str := ix.flatMap fun i => ['['] ++ natText i ++ [']']
 
+/-- `encode(value)`: numbers through the formatter, strings between double quotes -/
+def fmtVal (fmt : Int → Str) : Val → Str
+  | .int i => fmt i
+  | .str s => ['"'] ++ s ++ ['"']
+
 /-- the lines `"{indexes} {value}\n"` for `zip(np.ndindex(shape), data.flat)` -/
-def asciiLines (fmt : Int → Str) (shape : List Nat) (data : List Int) : Str :=
-  (List.zip (ndindex shape) data).flatMap fun (ix, v) => idxText ix ++ [' '] ++ fmt v ++ ['\n']
+def asciiLines (fmt : Int → Str) (shape : List Nat) (data : List Val) : Str :=
+  (List.zip (ndindex shape) data).flatMap fun (ix, v) => idxText ix ++ [' '] ++ fmtVal fmt v ++ ['\n']
 
 /-- `ascii` of a `BaseType` (printname = True), with the id already resolved.  This is where
     `var.data.flat` is used: a wrapped `BaseType` has no `.flat`. -/
@@ -497,7 +647,7 @@ def asciiBase (fmt : Int → Str) (id : Str) (b : Base) : Except Exc Str :=
   match b.shape with
   | [] =>
     match b.data with
-    | [v] => .ok (id ++ ['\n'] ++ fmt v)
+    | [v] => .ok (id ++ ['\n'] ++ fmtVal fmt v)
     | _ => .error .unspecified
   | sh =>
     match b.kind with
@@ -513,13 +663,19 @@ def asciiMembers (fmt : Int → Str) (parent : Str) (ms : List Base) : Except Ex
   let parts ← ms.mapM fun m => asciiBase fmt (parent ++ ['.'] ++ m.name) m
   pure (parts.flatMap (· ++ ['\n']))
 
+def asciiMember (fmt : Int → Str) (parent : Str) : Member → Except Exc Str
+  | .base b => asciiBase fmt (parent ++ ['.'] ++ b.name) b
+  | .struct n bs => asciiMembers fmt (parent ++ ['.'] ++ n) bs
+
 def asciiVar (fmt : Int → Str) : Var → Except Exc Str
   | .base b => asciiBase fmt b.name b
-  | .struct n ms => asciiMembers fmt n ms
+  | .struct n ms => do
+    let parts ← ms.mapM (asciiMember fmt n)
+    pure (parts.flatMap (· ++ ['\n']))
   | .grid n a ms => asciiMembers fmt n (a :: ms)
   | .seq n cols rows =>
     .ok (joinWith (cs!", ") (cols.map fun c => n ++ ['.'] ++ c.1) ++ ['\n'] ++
-         rows.flatMap fun r => joinWith (cs!", ") (r.map fmt) ++ ['\n'])
+         rows.flatMap fun r => joinWith (cs!", ") (r.map (fmtVal fmt)) ++ ['\n'])
 
 def dashes : Str := List.replicate 45 '-' ++ ['\n']
 
@@ -528,16 +684,34 @@ def asciiData (fmt : Int → Str) (ds : Dataset) : Except Exc Str := do
   let parts ← ds.vars.mapM (asciiVar fmt)
   pure (parts.flatMap (· ++ ['\n']))
 
-/-- the values of the data response in wire order (the XDR framing is C01/C05's subject) -/
-def wireValues : Var → List Int
+def memberValues : Member → List Val
   | .base b => b.data
-  | .struct _ ms => ms.flatMap (·.data)
+  | .struct _ bs => bs.flatMap (·.data)
+
+/-- the values of the data response in wire order (the XDR framing is C01/C05's subject) -/
+def wireValues : Var → List Val
+  | .base b => b.data
+  | .struct _ ms => ms.flatMap memberValues
   | .grid _ a ms => a.data ++ ms.flatMap (·.data)
   | .seq _ _ rows => rows.flatMap id
 
-def dodsValues (ds : Dataset) : List Int := ds.vars.flatMap wireValues
+def dodsValues (ds : Dataset) : List Val := ds.vars.flatMap wireValues
 
-def valuesText (vs : List Int) : Str := joinWith [' '] (vs.map intText)
+def hexDigit (n : Nat) : Char := if n < 10 then Char.ofNat (48 + n) else Char.ofNat (87 + n)
+
+def hexText (bs : List UInt8) : Str := bs.flatMap fun b => [hexDigit (b.toNat / 16), hexDigit (b.toNat % 16)]
+
+/-- a string value on the wire is C05's XDR string field (`XdrSpec.encString`: length word, the
+    bytes, zero padding to a multiple of four) -/
+def wireString (s : Str) : List UInt8 := XdrSpec.encString (s.map fun c => UInt8.ofNat c.toNat)
+
+/-- one value of the data response as text: a number in decimal, a string as `s` + the hex of
+    its XDR field -/
+def valText : Val → Str
+  | .int i => intText i
+  | .str s => 's' :: hexText (wireString s)
+
+def valuesText (vs : List Val) : Str := joinWith [' '] (vs.map valText)
 
 /-- DAS of a dataset whose variables carry no attributes (attribute printing is C08's subject) -/
 def dasVar (level : Nat) : Var → Str
@@ -545,7 +719,13 @@ def dasVar (level : Nat) : Var → Str
   | .grid n _ _ => indent level ++ n ++ cs!" {\n" ++ indent level ++ cs!"}\n"
   | .struct n ms =>
     indent level ++ n ++ cs!" {\n" ++
-    ms.flatMap (fun m => indent (level + 1) ++ m.name ++ cs!" {\n" ++ indent (level + 1) ++ cs!"}\n") ++
+    ms.flatMap (fun m =>
+      match m with
+      | .base b => indent (level + 1) ++ b.name ++ cs!" {\n" ++ indent (level + 1) ++ cs!"}\n"
+      | .struct k bs =>
+        indent (level + 1) ++ k ++ cs!" {\n" ++
+        bs.flatMap (fun b => indent (level + 2) ++ b.name ++ cs!" {\n" ++ indent (level + 2) ++ cs!"}\n") ++
+        indent (level + 1) ++ cs!"}\n") ++
     indent level ++ cs!"}\n"
   | .seq n cols _ =>
     indent level ++ n ++ cs!" {\n" ++
